@@ -87,7 +87,14 @@ pub fn hfacts(recs: &[Rec]) -> HFacts {
 const MS: i128 = 1_000_000;
 
 fn c07_case(cfg: &ChainCfg, failures: &mut Vec<(String, String)>) -> u64 {
-    let e = execute(cfg, &[]);
+    c07_eval(cfg, execute(cfg, &[]), failures)
+}
+
+fn c07_case_in_place(cfg: &ChainCfg, failures: &mut Vec<(String, String)>) -> u64 {
+    c07_eval(cfg, execute_in_place(cfg, &[]), failures)
+}
+
+fn c07_eval(cfg: &ChainCfg, e: Exec, failures: &mut Vec<(String, String)>) -> u64 {
     let f = hfacts(&e.recs);
     let label = format!("hops {:?} r={}ns tau={:?}ms regime {:?}", cfg.hops, cfg.r_ns, cfg.tau_ms, cfg.regime);
     for p in &f.panics {
@@ -214,6 +221,12 @@ pub fn run_c07(tier: Tier) -> i32 {
             }
         }
     }
+    // Phase 1: the no-subscriber cells, in parallel. Phase 2: the OpenTelemetry cells on one
+    // thread under one subscriber installed once: tracing caches callsite interest process-wide,
+    // and per-thread subscribers created and dropped concurrently with other threads that have
+    // none made the span (and with it the span-scoped deadline) intermittently disabled - a
+    // property of the harness's regime set-up, not of tarpc.
+    let (plain, otel): (Vec<ChainCfg>, Vec<ChainCfg>) = cfgs.iter().cloned().partition(|c| c.regime == Regime::NoSubscriber);
     let next = AtomicUsize::new(0);
     let total: Mutex<(u64, Vec<(String, String)>, u64)> = Mutex::new((0, vec![], 0));
     std::thread::scope(|s| {
@@ -223,10 +236,10 @@ pub fn run_c07(tier: Tier) -> i32 {
                 let (mut n, mut steps) = (0u64, 0u64);
                 loop {
                     let i = next.fetch_add(1, Ordering::SeqCst);
-                    if i >= cfgs.len() {
+                    if i >= plain.len() {
                         break;
                     }
-                    steps += c07_case(&cfgs[i], &mut fails);
+                    steps += c07_case(&plain[i], &mut fails);
                     n += 1;
                 }
                 let mut t = total.lock().unwrap();
@@ -236,6 +249,26 @@ pub fn run_c07(tier: Tier) -> i32 {
             });
         }
     });
+    {
+        use opentelemetry::trace::TracerProvider as _;
+        use tracing_subscriber::layer::SubscriberExt;
+        let provider = opentelemetry_sdk::trace::TracerProvider::builder().build();
+        let tracer = provider.tracer("mc");
+        let sub = tracing_subscriber::registry().with(tracing_opentelemetry::layer().with_tracer(tracer));
+        tracing::subscriber::with_default(sub, || {
+            tracing::callsite::rebuild_interest_cache();
+            let mut t = total.lock().unwrap();
+            for c in &otel {
+                let mut c2 = c.clone();
+                // the subscriber is already installed for this thread: run the cell in place
+                c2.regime = Regime::Otel;
+                let mut fails = vec![];
+                t.2 += c07_case_in_place(&c2, &mut fails);
+                t.1.extend(fails);
+                t.0 += 1;
+            }
+        });
+    }
     let (n, mut fails, steps) = total.into_inner().unwrap();
     // the documented default for an omitted deadline (self-describing encoding)
     {
